@@ -103,7 +103,7 @@ static void norm_vector(const char *group, const wchar_t *src, int ns, const wch
 }
 
 int main(int argc, char **argv) {
-    setvbuf(stdout, NULL, _IOLBF, 0); setlocale(LC_ALL, "C.UTF-8");
+    setvbuf(stdout, NULL, _IOLBF, 0); if (!getenv("C17_NOLOCALE")) setlocale(LC_ALL, "C.UTF-8");      /* C17_NOLOCALE: the process stays in the "C" locale it starts in, whatever LANG/LC_* say */
     void *L = dlopen(getenv("CAT_LIB"), RTLD_NOW | RTLD_GLOBAL);
     if (!L) { fprintf(stderr, "cannot load CAT_LIB\n"); return 2; }
     p_norm = dlsym(L, "_wcsnorm_s_chk"); p_fc = dlsym(L, "_wcsfc_s_chk"); p_towfc = dlsym(L, "_towfc_s_chk"); p_iswfc = dlsym(L, "iswfc");
